@@ -110,6 +110,8 @@ func inlineRound(p *Prog, baseline map[string]bool) (map[string][]byte, []string
 	out := map[string][]byte{}
 	var inlined, skipped []string
 	for _, pk := range p.All {
+		bundle, bundled := explodeStructParams(p, pk, baseline)
+		inlined = append(inlined, bundled...)
 		for _, file := range pk.Syntax {
 			tf := p.Fset.File(file.Pos())
 			if tf == nil {
@@ -124,6 +126,7 @@ func inlineRound(p *Prog, baseline map[string]bool) (map[string][]byte, []string
 				continue
 			}
 			var edits []inlineEdit
+			edits = append(edits, bundle[file]...)
 			for _, d := range file.Decls {
 				fd, ok := d.(*ast.FuncDecl)
 				if !ok || fd.Body == nil {
@@ -2049,4 +2052,232 @@ func calleeFingerprint(f *Func) []string {
 	}
 	sort.Strings(out)
 	return out
+}
+
+// explodeStructParams undoes "bundle the parameters into a small struct": for a struct type T that the reference tree
+// does not have, a function with a by-value parameter `p T` that only selects fields of p, and whose every call passes a
+// keyed (or complete positional) literal T{...} at that position, gets the fields as separate parameters in field
+// order (`p_f1 T1, p_f2 T2`), `p.f` becomes `p_f` and the calls pass the field values (the zero value for a field the
+// literal leaves out). The rules then see the function with plain parameters again. The edits of one function are all
+// made or none is.
+func explodeStructParams(p *Prog, pk *packages.Package, baseline map[string]bool) (map[*ast.File][]inlineEdit, []string) {
+	out := map[*ast.File][]inlineEdit{}
+	var done []string
+	info := pk.TypesInfo
+	short := strings.TrimPrefix(pk.PkgPath, ModPath+"/")
+	fileOf := func(pos token.Pos) *ast.File {
+		for _, f := range pk.Syntax {
+			if f.Pos() <= pos && pos < f.End() {
+				return f
+			}
+		}
+		return nil
+	}
+	text := func(n ast.Node) (string, bool) {
+		tf := p.Fset.File(n.Pos())
+		if tf == nil {
+			return "", false
+		}
+		src, err := p.ReadAbs(tf.Name())
+		if err != nil {
+			return "", false
+		}
+		return string(src[tf.Offset(n.Pos()):tf.Offset(n.End())]), true
+	}
+	knownStruct := func(name string) bool {
+		prefix := "fld\t" + short + "." + name + "."
+		for k := range baseline {
+			if strings.HasPrefix(k, prefix) {
+				return true
+			}
+		}
+		return false
+	}
+	for _, f := range p.Funcs {
+		if f.Pkg != pk || f.Decl.Body == nil || f.Obj == nil || f.Decl.Type.Params == nil {
+			continue
+		}
+		if len(p.refs[f.Obj]) > 0 {
+			continue
+		}
+		sig := f.Obj.Type().(*types.Signature)
+		if sig.Variadic() {
+			continue
+		}
+		idx := 0
+		for _, fl := range f.Decl.Type.Params.List {
+			k := len(fl.Names)
+			if k == 0 {
+				k = 1
+			}
+			at := idx
+			idx += k
+			if len(fl.Names) != 1 || fl.Names[0].Name == "_" {
+				continue
+			}
+			named, isN := info.TypeOf(fl.Type).(*types.Named)
+			if !isN || named.Obj().Pkg() != pk.Types || knownStruct(named.Obj().Name()) {
+				continue
+			}
+			st, isS := named.Underlying().(*types.Struct)
+			if !isS || st.NumFields() == 0 {
+				continue
+			}
+			embedded := false
+			for i := 0; i < st.NumFields(); i++ {
+				if st.Field(i).Embedded() {
+					embedded = true
+				}
+			}
+			if embedded {
+				continue
+			}
+			prm := info.Defs[fl.Names[0]]
+			pname := fl.Names[0].Name
+			// the type's declaration, for the source text of the field types
+			var stDecl *ast.StructType
+			for _, sf := range pk.Syntax {
+				for _, d := range sf.Decls {
+					if gd, isG := d.(*ast.GenDecl); isG {
+						for _, sp := range gd.Specs {
+							if ts, isT := sp.(*ast.TypeSpec); isT && info.Defs[ts.Name] == types.Object(named.Obj()) {
+								stDecl, _ = ts.Type.(*ast.StructType)
+							}
+						}
+					}
+				}
+			}
+			if stDecl == nil || fileOf(stDecl.Pos()) != fileOf(f.Decl.Pos()) {
+				// the field types are copied as written: only safe when the imports are those of the same file
+				continue
+			}
+			var fieldNames, fieldTypes []string
+			okDecl := true
+			for _, fd := range stDecl.Fields.List {
+				tt, okT := text(fd.Type)
+				if !okT || len(fd.Names) == 0 {
+					okDecl = false
+					break
+				}
+				for _, nm := range fd.Names {
+					fieldNames = append(fieldNames, nm.Name)
+					fieldTypes = append(fieldTypes, tt)
+				}
+			}
+			if !okDecl || len(fieldNames) != st.NumFields() {
+				continue
+			}
+			// uses of the parameter: only as the operand of a field selection
+			type edit struct {
+				file *ast.File
+				e    inlineEdit
+			}
+			var edits []edit
+			okUses := true
+			var stack []ast.Node
+			ast.Inspect(f.Decl.Body, func(n ast.Node) bool {
+				if n == nil {
+					stack = stack[:len(stack)-1]
+					return true
+				}
+				if id, isId := n.(*ast.Ident); isId && info.Uses[id] == prm {
+					sel, isSel := stack[len(stack)-1].(*ast.SelectorExpr)
+					if !isSel || sel.X != ast.Expr(id) {
+						okUses = false
+					} else if len(stack) >= 2 {
+						if u, isU := stack[len(stack)-2].(*ast.UnaryExpr); isU && u.Op == token.AND {
+							okUses = false
+						}
+					}
+					if okUses {
+						tf := p.Fset.File(sel.Pos())
+						edits = append(edits, edit{fileOf(sel.Pos()), inlineEdit{tf.Offset(sel.Pos()), tf.Offset(sel.End()), pname + "_" + sel.Sel.Name}})
+					}
+				}
+				stack = append(stack, n)
+				return true
+			})
+			if !okUses {
+				continue
+			}
+			// the calls
+			okCalls := len(p.sitesBy[f.Obj]) > 0
+			for _, s := range p.sitesBy[f.Obj] {
+				if s.Pkg != pk || at >= len(s.Call.Args) || s.Call.Ellipsis.IsValid() {
+					okCalls = false
+					break
+				}
+				lit, isLit := ast.Unparen(s.Call.Args[at]).(*ast.CompositeLit)
+				if !isLit || !types.Identical(info.TypeOf(lit), named) {
+					okCalls = false
+					break
+				}
+				vals := make([]string, len(fieldNames))
+				for i := range vals {
+					vals[i] = "*new(" + fieldTypes[i] + ")"
+				}
+				if fileOf(lit.Pos()) != fileOf(stDecl.Pos()) {
+					// the zero-value texts use the declaration's type spelling: same-file only
+					for _, e := range lit.Elts {
+						if _, isKV := e.(*ast.KeyValueExpr); !isKV || len(lit.Elts) != len(fieldNames) {
+							okCalls = false
+						}
+					}
+				}
+				for i, e := range lit.Elts {
+					if kv, isKV := e.(*ast.KeyValueExpr); isKV {
+						key, isId := kv.Key.(*ast.Ident)
+						pos := -1
+						for j, nm := range fieldNames {
+							if isId && nm == key.Name {
+								pos = j
+							}
+						}
+						vt, okT := text(kv.Value)
+						if pos < 0 || !okT {
+							okCalls = false
+							break
+						}
+						vals[pos] = vt
+					} else {
+						vt, okT := text(e)
+						if !okT || len(lit.Elts) != len(fieldNames) {
+							okCalls = false
+							break
+						}
+						vals[i] = vt
+					}
+				}
+				if !okCalls {
+					break
+				}
+				tf := p.Fset.File(lit.Pos())
+				edits = append(edits, edit{fileOf(lit.Pos()), inlineEdit{tf.Offset(lit.Pos()), tf.Offset(lit.End()), strings.Join(vals, ", ")}})
+			}
+			if !okCalls {
+				continue
+			}
+			// the declaration
+			var ps []string
+			for i := range fieldNames {
+				ps = append(ps, pname+"_"+fieldNames[i]+" "+fieldTypes[i])
+			}
+			tf := p.Fset.File(fl.Pos())
+			edits = append(edits, edit{fileOf(fl.Pos()), inlineEdit{tf.Offset(fl.Pos()), tf.Offset(fl.End()), strings.Join(ps, ", ")}})
+			for _, e := range edits {
+				if e.file == nil {
+					okCalls = false
+				}
+			}
+			if !okCalls {
+				continue
+			}
+			for _, e := range edits {
+				out[e.file] = append(out[e.file], e.e)
+			}
+			done = append(done, f.Key+" <- parameters of "+named.Obj().Name()+" (unbundled)")
+			break // one parameter of a function per round
+		}
+	}
+	return out, done
 }
